@@ -244,6 +244,9 @@ func (g *G) genEnv() {
 	case 2:
 		s.Env.RedactionPolicy = "urns"
 	}
+	if s.Env.RedactionPolicy == "none" && t.Chance("policy_left_empty", 1, 4) {
+		s.Env.RedactionPolicy = "" // stored without a policy: reads as "no redaction"
+	}
 	if t.Chance("collation", 1, 6) {
 		s.Env.InputCollation = g.pick("collation_v", []string{"default", "confusables", "arabic_variants"})
 	}
@@ -515,10 +518,12 @@ func (s *Scenario) AssetsDoc() J {
 			"name": "Rwanda", "aliases": []any{"Ruanda"},
 			"children": []any{
 				J{"name": "Kigali City", "aliases": []any{"Kigali", "Kigari"}, "children": []any{
-					J{"name": "Gasabo", "children": []any{J{"name": "Gisozi"}, J{"name": "Ndera"}}},
+					J{"name": "Gasabo", "children": []any{J{"name": "Gisozi"}, J{"name": "Ndera"}, J{"name": "Remera", "aliases": []any{"Remera I"}}}},
 					J{"name": "Nyarugenge", "children": []any{}},
+					J{"name": "Kicukiro", "children": []any{J{"name": "Remera"}, J{"name": "Ndera"}}},
 				}},
-				J{"name": "Eastern Province", "children": []any{J{"name": "Gatsibo", "children": []any{J{"name": "Kageyo"}}}}},
+				// names repeat across parents, as they do in real hierarchies
+				J{"name": "Eastern Province", "children": []any{J{"name": "Gatsibo", "children": []any{J{"name": "Kageyo"}, J{"name": "Remera"}}}, J{"name": "Gasabo", "children": []any{J{"name": "Ndera"}}}}},
 			},
 		}}
 	}
